@@ -637,6 +637,45 @@ fn run_mutations(ctx: &mut Ctx, rep: &mut Report, ck: &mut Checker, base: &mut u
     }
 }
 
+/// Runs of valid multi-byte UTF-8 characters inserted at every position: malformed input whose
+/// remainder (the part error messages quote or slice) is long and not ASCII, with every alignment
+/// of the character boundaries relative to the insertion point (ASCII pad 0..=3 x character widths 2, 3, 4).
+fn run_utf8_runs(ctx: &mut Ctx, rep: &mut Report, ck: &mut Checker, base: &mut u64, bases: &[(usize, Base)]) {
+    rep.space(
+        "utf8_runs",
+        "small valid base files x EVERY insertion position 0..=len x {0,1,2,3} ASCII pad bytes followed by a run of >= 96 bytes of valid multi-byte UTF-8 characters of width 2 (U+00E9), 3 (U+20AC) or 4 (U+1F600),          i.e. every alignment of multi-byte character boundaries relative to any byte offset the reader may slice at; x chunkings {whole, 1-byte chunks, one cut at the fault}; same oracle as short_strings",
+    );
+    let chars: [&str; 3] = ["\u{e9}", "\u{20ac}", "\u{1f600}"];
+    for (ri, b) in bases {
+        let data = &b.bytes;
+        for p in 0..=data.len() {
+            let idx = *base;
+            *base += 1;
+            if !ctx.mine(idx) {
+                continue;
+            }
+            watch::beat(16, *ri as u64, 0, p as u64);
+            for pad in 0..4usize {
+                for (wi, ch) in chars.iter().enumerate() {
+                    let mut ins: Vec<u8> = vec![b'x'; pad];
+                    while ins.len() < 96 + pad {
+                        ins.extend_from_slice(ch.as_bytes());
+                    }
+                    let mut v = data[..p].to_vec();
+                    v.extend_from_slice(&ins);
+                    v.extend_from_slice(&data[p..]);
+                    let origin = Origin { base: b.name.clone(), fault: "utf8-run", detail: format!("{} pad bytes + run of {}-byte characters before byte {}", pad, wi + 2, p) };
+                    ck.check(rep, b.fmt, b.alpha, &v, p, true, &origin);
+                }
+            }
+        }
+        if ctx.out_of_time() {
+            rep.cap(format!("utf8_runs: wall-clock cap at {}", b.name));
+            return;
+        }
+    }
+}
+
 fn run_pairs(ctx: &mut Ctx, rep: &mut Report, ck: &mut Checker, base: &mut u64, bases: &[(usize, Base)]) {
     rep.space(
         "two_faults",
@@ -716,6 +755,9 @@ pub fn run(ctx: &mut Ctx, rep: &mut Report) {
             rep.sample_space(2, || json!({"base": b.name, "len": b.bytes.len(), "text": lossy(&b.bytes)}));
         }
         run_mutations(ctx, rep, &mut ck, &mut base, &bases, !quick, "mutations");
+    }
+    if !ctx.capped && ctx.wants("utf8_runs") {
+        run_utf8_runs(ctx, rep, &mut ck, &mut base, &bases);
     }
     if !quick && !ctx.capped && ctx.wants("two_faults") {
         run_pairs(ctx, rep, &mut ck, &mut base, &bases);
